@@ -17,6 +17,7 @@ import PlasVerif.Driver.C06
 import PlasVerif.Driver.C05
 import PlasVerif.Driver.C12
 import PlasVerif.Driver.C17
+import PlasVerif.Driver.C02
 /-!
 Line-protocol driver: one request per line `<property> <stream> <payload…>`, one
 answer per line `<model output>\t<spec output or ->[\t<aux>]`.  Imports only `Model`,
@@ -46,6 +47,7 @@ def dispatch (line : String) : String :=
   | "C05" :: r => C05.handle r
   | "C12" :: r => C12.handle r
   | "C17" :: r => C17.handle r
+  | "C02" :: r => C02.handle r
   | _ => "bad-op"
 
 partial def loop (h : IO.FS.Stream) (out : IO.FS.Stream) : IO Unit := do
